@@ -1,5 +1,612 @@
 package main
 
-func tryReplay(o checkOpts, dir, base string, ob *Obligation) (string, bool) { return "", false }
+// Replay of solver counterexamples against the real code (DESIGN §6): for functions whose inputs are
+// value-like (integers, booleans, byte strings) a Go test is generated that calls the real function on the
+// model's inputs (injected with `go test -overlay`, nothing is written into /repo); the violated contract
+// clause is then evaluated on the concrete inputs/outputs by the solver.
 
-func cmdReplay(args []string) int { return 0 }
+import (
+	"bytes"
+	"context"
+	"encoding/json"
+	"fmt"
+	"go/types"
+	"os"
+	"os/exec"
+	"path/filepath"
+	"sort"
+	"strings"
+	"time"
+
+	"golang.org/x/tools/go/ssa"
+)
+
+const replayMaxLen = 24
+
+type concVal struct {
+	kind  string // int, bool, bytes, key, err
+	i     string
+	b     bool
+	bytes []int
+	base  int // for result slices: index of the input slice they alias, or -1
+	off   int
+	cap   int
+	panic string
+}
+
+func replayable(t types.Type, keyMode bool) bool {
+	if _, _, ok := intRange(t); ok {
+		return true
+	}
+	switch u := t.Underlying().(type) {
+	case *types.Basic:
+		return u.Info()&types.IsBoolean != 0
+	case *types.Slice:
+		return isByteSlice(t)
+	case *types.Interface:
+		return types.Identical(t, types.Universe.Lookup("error").Type())
+	}
+	return false
+}
+
+func dbg(format string, a ...interface{}) {
+	if os.Getenv("GOCV_DEBUG") != "" {
+		fmt.Fprintf(os.Stderr, "[replay] "+format+"\n", a...)
+	}
+}
+
+func tryReplay(o checkOpts, dir, base string, ob *Obligation) (string, bool) {
+	r := ob.run
+	if r.spec == nil || r.spec.Replay != "auto" || ob.clause == nil || r.top == nil {
+		return "", false
+	}
+	fn := r.top
+	if fn.Signature.Recv() != nil || len(fn.FreeVars) > 0 {
+		return "", false
+	}
+	key := r.eng.sorts.keyMode
+	for _, p := range fn.Params {
+		if !replayable(p.Type(), key) || types.Identical(p.Type(), types.Universe.Lookup("error").Type()) {
+			return "", false
+		}
+	}
+	for i := 0; i < fn.Signature.Results().Len(); i++ {
+		if !replayable(fn.Signature.Results().At(i).Type(), key) {
+			return "", false
+		}
+	}
+	tmp, err := os.MkdirTemp("", "gocv-replay-")
+	if err != nil {
+		return "", false
+	}
+	if os.Getenv("GOCV_DEBUG") == "" {
+		defer os.RemoveAll(tmp)
+	} else {
+		dbg("files in %s", tmp)
+	}
+	// 1. model with bounded lengths
+	var terms []string
+	var extra []string
+	heap := r.heapInit["E_uint8"]
+	for _, in := range r.inputs {
+		switch {
+		case in.tv.Sort == SSlice:
+			extra = append(extra, app("assert", app("<=", app("s_len", in.tv.S), num(replayMaxLen))))
+			terms = append(terms, app("s_len", in.tv.S))
+			for k := 0; k < replayMaxLen; k++ {
+				if heap != "" {
+					terms = append(terms, app("select", app("select", heap, app("s_arr", in.tv.S)), app("+", app("s_off", in.tv.S), num(int64(k)))))
+				} else {
+					terms = append(terms, "0")
+				}
+			}
+		default:
+			terms = append(terms, in.tv.S)
+		}
+	}
+	var q strings.Builder
+	for _, d := range r.eng.sorts.decls {
+		if !strings.HasSuffix(d, ";bg") {
+			q.WriteString(d + "\n")
+		}
+	}
+	for _, c := range r.script[:ob.prefixLen] {
+		if !strings.HasSuffix(c, ";bg") {
+			q.WriteString(c + "\n")
+		}
+	}
+	if heap != "" {
+		q.WriteString(fmt.Sprintf("(assert (forall ((x Int) (i Int)) (and (<= 0 (select (select %s x) i)) (<= (select (select %s x) i) 255))))\n", heap, heap))
+	}
+	for _, x := range extra {
+		q.WriteString(x + "\n")
+	}
+	q.WriteString(app("assert", not(ob.goal)) + "\n(check-sat)\n(get-value (" + strings.Join(terms, " ") + "))\n")
+	res, text, _ := runSolver(solvers[0], q.String(), tmp, "model", 10)
+	if res != "sat" {
+		dbg("model query: %s %s", res, truncate(text, 300))
+		return "", false
+	}
+	vals := make([]string, len(terms))
+	for i := range terms {
+		vals[i] = modelValue(text, i, len(terms))
+	}
+	// 2. concrete inputs
+	var ins []concVal
+	pos := 0
+	var keyInts []string
+	for _, in := range r.inputs {
+		switch {
+		case in.tv.Sort == SSlice:
+			n := atoiSMT(vals[pos])
+			pos++
+			cv := concVal{kind: "bytes"}
+			for k := 0; k < replayMaxLen; k++ {
+				if k < n {
+					cv.bytes = append(cv.bytes, atoiSMT(vals[pos])&255)
+				}
+				pos++
+			}
+			ins = append(ins, cv)
+		case in.tv.Sort == SBool:
+			ins = append(ins, concVal{kind: "bool", b: vals[pos] == "true"})
+			pos++
+		case in.tv.Sort == SInt && in.tv.T != nil && isByteSlice(in.tv.T):
+			ins = append(ins, concVal{kind: "key", i: smtInt(vals[pos])})
+			keyInts = append(keyInts, smtInt(vals[pos]))
+			pos++
+		default:
+			ins = append(ins, concVal{kind: "int", i: smtInt(vals[pos])})
+			pos++
+		}
+	}
+	keyMap := embedKeys(keyInts)
+	// 3. generate and run the test
+	pkgDir := filepath.Join(o.repo, strings.TrimPrefix(strings.TrimPrefix(fn.Pkg.Pkg.Path(), r.eng.modPath), "/"))
+	src := genReplayTest(fn, ins, keyMap)
+	testFile := filepath.Join(tmp, "zz_gocv_replay_test.go")
+	os.WriteFile(testFile, []byte(src), 0o644)
+	ov := map[string]map[string]string{"Replace": {filepath.Join(pkgDir, "zz_gocv_replay_test.go"): testFile}}
+	ovData, _ := json.Marshal(ov)
+	ovFile := filepath.Join(tmp, "overlay.json")
+	os.WriteFile(ovFile, ovData, 0o644)
+	ctx, cancel := context.WithTimeout(context.Background(), 180*time.Second)
+	defer cancel()
+	cmd := exec.CommandContext(ctx, "go", "test", "-overlay", ovFile, "-vet=off", "-count=1", "-timeout", "60s", "-v", "-run", "^TestGocvReplay$", ".")
+	cmd.Dir = pkgDir
+	var out bytes.Buffer
+	cmd.Stdout, cmd.Stderr = &out, &out
+	if err := cmd.Run(); err != nil {
+		dbg("go test in %s: %v", pkgDir, err)
+	}
+	line := ""
+	for _, l := range strings.Split(out.String(), "\n") {
+		if strings.HasPrefix(l, "GOCV-REPLAY ") {
+			line = strings.TrimPrefix(l, "GOCV-REPLAY ")
+		}
+	}
+	if line == "" {
+		dbg("no replay output:\n%s", truncate(out.String(), 2000))
+		return "", false
+	}
+	var rr struct {
+		Panic   string                   `json:"panic"`
+		Results []map[string]interface{} `json:"results"`
+		After   [][]int                  `json:"after"`
+	}
+	if err := json.Unmarshal([]byte(line), &rr); err != nil {
+		return "", false
+	}
+	verdict := ""
+	if rr.Panic != "" {
+		if r.spec.MayPanic {
+			return "", false
+		}
+		verdict = "the real function panics on this input: " + rr.Panic
+	} else {
+		viol, err := evalConcrete(r, fn, ob, ins, rr.Results, rr.After, keyMap, tmp)
+		if err != nil || !viol {
+			dbg("concrete evaluation: viol=%v err=%v output=%s", viol, err, line)
+			return "", false
+		}
+		verdict = "the contract clause evaluates to false on the real function's output"
+	}
+	// 4. keep the replay: test file + description
+	os.MkdirAll(dir, 0o755)
+	p := filepath.Join(dir, base+"_replay_test.go")
+	hdr := fmt.Sprintf("// Replay of obligation %s\n// contract: %s\n// verdict: %s\n// real output: %s\n// re-run: gocv replay %s\n", ob.Name, ob.Text, verdict, line, p)
+	os.WriteFile(p, []byte(hdr+src), 0o644)
+	return p, true
+}
+
+func atoiSMT(s string) int {
+	v := smtInt(s)
+	n := 0
+	fmt.Sscan(v, &n)
+	return n
+}
+
+func smtInt(s string) string {
+	s = strings.TrimSpace(s)
+	if strings.HasPrefix(s, "(-") {
+		s = strings.TrimSpace(strings.TrimSuffix(strings.TrimPrefix(s, "(-"), ")"))
+		return "-" + s
+	}
+	return s
+}
+
+// embedKeys maps abstract key integers to byte strings preserving order, emptiness and successor pairs.
+func embedKeys(ints []string) map[string][]byte {
+	m := map[string][]byte{}
+	type kv struct {
+		s string
+		n int64
+	}
+	var ks []kv
+	seen := map[string]bool{}
+	for _, s := range ints {
+		if seen[s] {
+			continue
+		}
+		seen[s] = true
+		var n int64
+		fmt.Sscan(s, &n)
+		ks = append(ks, kv{s, n})
+	}
+	sort.Slice(ks, func(i, j int) bool { return ks[i].n < ks[j].n })
+	letter := byte('a')
+	var prev []byte
+	var prevN int64 = -10
+	for _, k := range ks {
+		if k.n <= 0 {
+			m[k.s] = []byte{}
+			prev, prevN = []byte{}, 0
+			continue
+		}
+		if k.n == prevN+1 && prevN >= 0 {
+			prev = append(append([]byte{}, prev...), 0)
+		} else {
+			prev = []byte{letter}
+			letter++
+		}
+		prevN = k.n
+		m[k.s] = prev
+	}
+	return m
+}
+
+func goBytesLit(b []int) string {
+	if b == nil {
+		return "[]byte(nil)"
+	}
+	var sb strings.Builder
+	sb.WriteString("[]byte{")
+	for i, x := range b {
+		if i > 0 {
+			sb.WriteString(", ")
+		}
+		fmt.Fprintf(&sb, "0x%02x", x)
+	}
+	sb.WriteString("}")
+	return sb.String()
+}
+
+func genReplayTest(fn *ssa.Function, ins []concVal, keyMap map[string][]byte) string {
+	var sb strings.Builder
+	fmt.Fprintf(&sb, "package %s\n\nimport (\n\t\"encoding/json\"\n\t\"fmt\"\n\t\"testing\"\n\t\"unsafe\"\n)\n\n", fn.Pkg.Pkg.Name())
+	sb.WriteString("func TestGocvReplay(t *testing.T) {\n")
+	sb.WriteString("\tvar inSlices [][]byte\n")
+	var args []string
+	for i, p := range fn.Params {
+		name := fmt.Sprintf("a%d", i)
+		cv := ins[i]
+		ts := types.TypeString(p.Type(), func(pk *types.Package) string {
+			if pk == fn.Pkg.Pkg {
+				return ""
+			}
+			return pk.Name()
+		})
+		switch cv.kind {
+		case "bytes":
+			fmt.Fprintf(&sb, "\t%s := %s(%s)\n\tinSlices = append(inSlices, %s)\n", name, ts, goBytesLit(cv.bytes), name)
+		case "key":
+			kb := keyMap[cv.i]
+			var bi []int
+			for _, x := range kb {
+				bi = append(bi, int(x))
+			}
+			if bi == nil {
+				bi = []int{}
+			}
+			fmt.Fprintf(&sb, "\t%s := %s(%s)\n\tinSlices = append(inSlices, %s)\n", name, ts, goBytesLit(bi), name)
+		case "bool":
+			fmt.Fprintf(&sb, "\t%s := %v\n", name, cv.b)
+		default:
+			fmt.Fprintf(&sb, "\tvar %s %s\n\t{\n\t\tvar tmp interface{} = %s\n\t\t_ = tmp\n\t}\n", name, ts, "nil")
+			_, signed, _ := intWidth(p.Type())
+			if signed {
+				fmt.Fprintf(&sb, "\t%s = %s(int64(%s))\n", name, ts, safeIntLit(cv.i))
+			} else {
+				fmt.Fprintf(&sb, "\t%s = %s(uint64(%s))\n", name, ts, cv.i)
+			}
+		}
+		args = append(args, name)
+	}
+	nres := fn.Signature.Results().Len()
+	var rs []string
+	for i := 0; i < nres; i++ {
+		rs = append(rs, fmt.Sprintf("r%d", i))
+	}
+	sb.WriteString("\tout := map[string]interface{}{}\n")
+	sb.WriteString("\tfunc() {\n\t\tdefer func() {\n\t\t\tif x := recover(); x != nil {\n\t\t\t\tout[\"panic\"] = fmt.Sprint(x)\n\t\t\t}\n\t\t}()\n")
+	if nres > 0 {
+		fmt.Fprintf(&sb, "\t\t%s := %s(%s)\n", strings.Join(rs, ", "), fn.Name(), strings.Join(args, ", "))
+	} else {
+		fmt.Fprintf(&sb, "\t\t%s(%s)\n", fn.Name(), strings.Join(args, ", "))
+	}
+	sb.WriteString("\t\tvar results []map[string]interface{}\n")
+	for i := 0; i < nres; i++ {
+		rt := fn.Signature.Results().At(i).Type()
+		switch {
+		case isByteSlice(rt):
+			fmt.Fprintf(&sb, "\t\tresults = append(results, gocvSlice([]byte(r%d), inSlices))\n", i)
+		case types.Identical(rt, types.Universe.Lookup("error").Type()):
+			fmt.Fprintf(&sb, "\t\tresults = append(results, map[string]interface{}{\"kind\": \"err\", \"nonnil\": r%d != nil})\n", i)
+		case rt.Underlying().(*types.Basic).Info()&types.IsBoolean != 0:
+			fmt.Fprintf(&sb, "\t\tresults = append(results, map[string]interface{}{\"kind\": \"bool\", \"b\": bool(r%d)})\n", i)
+		default:
+			fmt.Fprintf(&sb, "\t\tresults = append(results, map[string]interface{}{\"kind\": \"int\", \"i\": fmt.Sprint(r%d)})\n", i)
+		}
+	}
+	sb.WriteString("\t\tout[\"results\"] = results\n\t}()\n")
+	sb.WriteString("\tvar after [][]int\n\tfor _, s := range inSlices {\n\t\ta := []int{}\n\t\tfor _, x := range s {\n\t\t\ta = append(a, int(x))\n\t\t}\n\t\tafter = append(after, a)\n\t}\n\tout[\"after\"] = after\n")
+	sb.WriteString("\tdata, _ := json.Marshal(out)\n\tfmt.Println(\"GOCV-REPLAY\", string(data))\n}\n\n")
+	sb.WriteString(`func gocvSlice(r []byte, ins [][]byte) map[string]interface{} {
+	m := map[string]interface{}{"kind": "bytes", "base": -1, "off": 0, "cap": cap(r), "nil": r == nil}
+	bs := []int{}
+	for _, x := range r {
+		bs = append(bs, int(x))
+	}
+	m["bytes"] = bs
+	rp := uintptr(unsafe.Pointer(unsafe.SliceData(r)))
+	for i, in := range ins {
+		ip := uintptr(unsafe.Pointer(unsafe.SliceData(in)))
+		if ip != 0 && rp >= ip && rp <= ip+uintptr(cap(in)) && (cap(in) > 0) {
+			m["base"] = i
+			m["off"] = int(rp - ip)
+			break
+		}
+	}
+	return m
+}
+`)
+	return sb.String()
+}
+
+func safeIntLit(s string) string {
+	if s == "-9223372036854775808" {
+		return "-9223372036854775807 - 1"
+	}
+	return s
+}
+
+// evalConcrete evaluates the failed contract clause on concrete inputs and the real function's outputs.
+func evalConcrete(r0 *Run, fn *ssa.Function, ob *Obligation, ins []concVal, results []map[string]interface{}, after [][]int, keyMap map[string][]byte, tmp string) (bool, error) {
+	e := r0.eng
+	r := &Run{eng: e, top: fn, spec: r0.spec, heapSort: map[string]string{}, heapInit: map[string]string{}, warnings: map[string]bool{},
+		abstracted: map[string]bool{}, inlined: map[string]bool{}, assumed: map[string]bool{}, oblNames: map[string]int{}, ghostUF: map[string]bool{}}
+	st := &State{reach: "true", env: map[ssa.Value]Val{}, heaps: map[string]string{}, vars: map[string]Val{}, frontier: "1000"}
+	r.entry = st
+	key := e.sorts.keyMode
+	narr := 0
+	arrTerm := func(b []int) string {
+		narr++
+		name := fmt.Sprintf("carr!%d", narr)
+		r.emit(fmt.Sprintf("(declare-const %s (Array Int Int))", name))
+		for i, x := range b {
+			r.emit(fmt.Sprintf("(assert (= (select %s %d) %d))", name, i, x))
+		}
+		return name
+	}
+	// reverse key embedding for outputs
+	keyOf := func(b []byte) string {
+		for k, v := range keyMap {
+			if bytes.Equal(v, b) {
+				return k
+			}
+		}
+		// place new strings relative to the known ones (order only)
+		type kv struct {
+			n int64
+			b []byte
+		}
+		var ks []kv
+		for k, v := range keyMap {
+			var n int64
+			fmt.Sscan(k, &n)
+			ks = append(ks, kv{n, v})
+		}
+		sort.Slice(ks, func(i, j int) bool { return ks[i].n < ks[j].n })
+		lo := int64(0)
+		for _, k := range ks {
+			if bytes.Compare(k.b, b) < 0 {
+				lo = k.n
+			}
+		}
+		if len(b) == 0 {
+			return "0"
+		}
+		return fmt.Sprintf("%d", lo*1000+500) // not exact; order against known keys is preserved only roughly
+	}
+	_ = keyOf
+	binds := map[string]Val{}
+	r.emit("(declare-const E_uint8!base (Array Int (Array Int Int)))")
+	oldHeap := "E_uint8!base"
+	newHeap := oldHeap
+	si := 0
+	sliceRef := map[int]int{}
+	for i, p := range fn.Params {
+		cv := ins[i]
+		switch cv.kind {
+		case "bytes":
+			ref := 10 + si
+			sliceRef[si] = ref
+			oldHeap = app("store", oldHeap, num(int64(ref)), arrTerm(cv.bytes))
+			if si < len(after) {
+				newHeap = app("store", newHeap, num(int64(ref)), arrTerm(after[si]))
+			}
+			n := len(cv.bytes)
+			arr := num(int64(ref))
+			if cv.bytes == nil {
+				arr = "0"
+			}
+			binds[p.Name()] = TV{app("mk_slice", arr, "0", num(int64(n)), num(int64(n))), SSlice, p.Type()}
+			si++
+		case "key":
+			binds[p.Name()] = TV{cv.i, SInt, p.Type()}
+			si++
+		case "bool":
+			binds[p.Name()] = TV{fmt.Sprint(cv.b), SBool, p.Type()}
+		default:
+			binds[p.Name()] = TV{smtNum(cv.i), SInt, p.Type()}
+		}
+	}
+	var resVals []Val
+	for i, m := range results {
+		rt := fn.Signature.Results().At(i).Type()
+		switch m["kind"] {
+		case "bytes":
+			var bs []int
+			for _, x := range m["bytes"].([]interface{}) {
+				bs = append(bs, int(x.(float64)))
+			}
+			if key {
+				bb := make([]byte, len(bs))
+				for j, x := range bs {
+					bb[j] = byte(x)
+				}
+				resVals = append(resVals, TV{keyOf(bb), SInt, rt})
+				continue
+			}
+			base := int(m["base"].(float64))
+			off := int(m["off"].(float64))
+			cp := int(m["cap"].(float64))
+			if isNil, _ := m["nil"].(bool); isNil {
+				resVals = append(resVals, TV{"(mk_slice 0 0 0 0)", SSlice, rt})
+				continue
+			}
+			if base >= 0 {
+				resVals = append(resVals, TV{app("mk_slice", num(int64(sliceRef[base])), num(int64(off)), num(int64(len(bs))), num(int64(cp))), SSlice, rt})
+			} else {
+				ref := 500 + i
+				newHeap = app("store", newHeap, num(int64(ref)), arrTerm(bs))
+				resVals = append(resVals, TV{app("mk_slice", num(int64(ref)), "0", num(int64(len(bs))), num(int64(cp))), SSlice, rt})
+			}
+		case "err":
+			if nn, _ := m["nonnil"].(bool); nn {
+				resVals = append(resVals, TV{"(mk_iface 1 1)", SIface, rt})
+			} else {
+				resVals = append(resVals, TV{"(mk_iface 0 0)", SIface, rt})
+			}
+		case "bool":
+			resVals = append(resVals, TV{fmt.Sprint(m["b"]), SBool, rt})
+		default:
+			resVals = append(resVals, TV{smtNum(m["i"].(string)), SInt, rt})
+		}
+	}
+	if !key {
+		hn := e.elemHeapName(types.Typ[types.Uint8])
+		r.heapSort[hn] = e.heapSorts[hn]
+		r.heapInit[hn] = "E_uint8!c0"
+		r.emit(fmt.Sprintf("(define-fun E_uint8!c0 () (Array Int (Array Int Int)) %s)", oldHeap))
+		r.emit(fmt.Sprintf("(define-fun E_uint8!c1 () (Array Int (Array Int Int)) %s)", newHeap))
+		st.heaps[hn] = "E_uint8!c0"
+	}
+	old := st.clone()
+	cur := st.clone()
+	if !key {
+		cur.heaps[e.elemHeapName(types.Typ[types.Uint8])] = "E_uint8!c1"
+	}
+	switch len(resVals) {
+	case 0:
+	case 1:
+		bindResults(binds, fn.Signature, resVals[0])
+	default:
+		bindResults(binds, fn.Signature, Tuple(resVals))
+	}
+	fr := &Frame{run: r, fn: fn, top: false, spec: r0.spec, params: binds, entry: old}
+	cx := &evalCtx{fr: fr, run: r, st: cur, old: old, binds: binds, pkg: fn.Pkg.Pkg}
+	f, err := cx.boolExpr(ob.clause.Expr)
+	if err != nil {
+		return false, err
+	}
+	var q strings.Builder
+	for _, d := range e.sorts.decls {
+		if !strings.HasSuffix(d, ";bg") {
+			q.WriteString(d + "\n")
+		}
+	}
+	for _, c := range r.script {
+		if !strings.HasSuffix(c, ";bg") {
+			q.WriteString(c + "\n")
+		}
+	}
+	q.WriteString(app("assert", not(f)) + "\n(check-sat)\n")
+	res, _, _ := runSolver(solvers[0], q.String(), tmp, "concrete", 20)
+	return res == "sat", nil
+}
+
+func smtNum(s string) string {
+	if strings.HasPrefix(s, "-") {
+		return "(- " + s[1:] + ")"
+	}
+	return s
+}
+
+// cmdReplay re-runs a kept replay test against the current /repo.
+func cmdReplay(args []string) int {
+	if len(args) < 1 {
+		fmt.Fprintln(os.Stderr, "usage: gocv replay <file>")
+		return 2
+	}
+	path := args[0]
+	repo := "/repo"
+	if len(args) > 1 {
+		repo = args[1]
+	}
+	data, err := os.ReadFile(path)
+	if err != nil {
+		fmt.Fprintln(os.Stderr, err)
+		return 2
+	}
+	if !strings.HasSuffix(path, "_test.go") {
+		os.Stdout.Write(data)
+		return 0
+	}
+	// find the package from the "package x" clause and the obligation name in the header
+	var pkgPath string
+	for _, l := range strings.Split(string(data), "\n") {
+		if strings.HasPrefix(l, "// Replay of obligation ") {
+			name := strings.TrimPrefix(l, "// Replay of obligation ")
+			if i := strings.Index(name, ":"); i >= 0 {
+				name = name[:i]
+			}
+			name = strings.TrimPrefix(name, "github.com/tikv/client-go/v2")
+			if j := strings.LastIndex(name, "."); j >= 0 {
+				pkgPath = strings.Trim(name[:j], "/()*")
+			}
+		}
+	}
+	tmp, _ := os.MkdirTemp("", "gocv-replay-")
+	defer os.RemoveAll(tmp)
+	pkgDir := filepath.Join(repo, pkgPath)
+	ov := map[string]map[string]string{"Replace": {filepath.Join(pkgDir, "zz_gocv_replay_test.go"): path}}
+	ovData, _ := json.Marshal(ov)
+	ovFile := filepath.Join(tmp, "overlay.json")
+	os.WriteFile(ovFile, ovData, 0o644)
+	cmd := exec.Command("go", "test", "-overlay", ovFile, "-vet=off", "-count=1", "-timeout", "60s", "-v", "-run", "^TestGocvReplay$", ".")
+	cmd.Dir = pkgDir
+	cmd.Stdout, cmd.Stderr = os.Stdout, os.Stderr
+	cmd.Run()
+	return 0
+}
